@@ -1671,6 +1671,8 @@ func runC14(res *hx.Result, rng *hx.Rng, tier string, outdir string) {
 		"several properties (an object built with bus.NewBasicObject declaring 2-8 int32 properties): 3-5 threads (service-side UpdateProperty goroutines, further mailboxes of the object, " +
 		"DirectClient, a server connection) x 2-4 reads / writes by name or uid / updates mostly of DIFFERENT properties, a subscriber per property, final reads; and rounds of bursts released by a spin barrier — " +
 		"one writer per property with read-back, a polling reader and final reads of every property, or several writers of one property with subscribers on all — that stop at the first failure; " +
+		"value sizes (the same kind of object declaring a string, a list, a raw and an int32 property): values of 8 B to 700 KiB (below, at and above 4 / 32 / 64 KiB) written in bursts by 1-3 service goroutines and up to two connections at once, the int32 property by a further writer, " +
+		"subscriptions of both properties on shared connections that also carry the replies to their own reads and writes, half of the configurations with connections that read in pieces of 16 KiB; before every burst accepted ; read ; refused service-side update / client write ; read, for both properties; " +
 		"non-trivial = an invalid or wrongly-typed write is present (sequential), a user id collision, a re-registration or an invalid write is present (subscriber table), the same or an accepted write to a subscriber while statistics or traces are on (optional features), two operations of different threads overlap (concurrent), " +
 		"two accepted writes of different threads to different properties overlap (several properties; for a configuration of rounds: in a sampled round); distinct by sha256"
 	nSeq, nReg, nConc, nMulti, nFeat := 120, 60, 80, 40, 50
@@ -1698,5 +1700,11 @@ func runC14(res *hx.Result, rng *hx.Rng, tier string, outdir string) {
 	res.Notes = append(res.Notes, fmt.Sprintf("several-property families ran with GOMAXPROCS=%d on %d CPUs", runtime.GOMAXPROCS(0), runtime.NumCPU()))
 	c14MultiConcurrent(res, rng, cf, nMulti)
 	c14MultiRace(res, rng, cf, tier)
+	// values of every size class written by service goroutines and clients at once, subscribers on shared connections (c14sizes.go); own random stream
+	if tier == "thorough" {
+		c14Sizes(res, 40, 10)
+	} else {
+		c14Sizes(res, 6, 3)
+	}
 	cf.Flush()
 }
